@@ -246,6 +246,9 @@ pub struct World {
     pub ext: BTreeMap<&'static str, Box<dyn std::any::Any>>,
     pub spin_watch: (TaskId, u64),
     pub max_spin: u64,
+    /// kernel events since the current poll started (runaway-poll watchdog)
+    pub events_in_poll: u64,
+    pub max_events_in_poll: u64,
 }
 
 thread_local! {
@@ -300,6 +303,8 @@ pub fn install(tape: Tape, cfg: SimConfig) {
         ext: BTreeMap::new(),
         spin_watch: (usize::MAX, 0),
         max_spin: 0,
+        events_in_poll: 0,
+        max_events_in_poll: 0,
     };
     WORLD.with(|w| *w.borrow_mut() = Some(world));
 }
@@ -384,6 +389,17 @@ pub fn count_n(name: &'static str, n: u64) {
 
 impl World {
     pub fn event(&mut self, kind: &'static str, a: u64, b: u64) {
+        if self.in_poll.is_some() {
+            self.events_in_poll += 1;
+            if self.events_in_poll > self.max_events_in_poll {
+                self.max_events_in_poll = self.events_in_poll;
+            }
+            if self.events_in_poll == 300_000 {
+                // a single poll that performs this many I/O operations never yields:
+                // unwind it so that the run can be reported instead of hanging
+                panic!("simtokio watchdog: task spins without yielding (300000 I/O events inside one poll, last: {})", kind);
+            }
+        }
         let mut k: u64 = 0;
         for ch in kind.bytes() {
             k = k.wrapping_mul(131).wrapping_add(ch as u64);
@@ -561,6 +577,7 @@ pub fn step() -> bool {
             id
         };
         w.steps += 1;
+        w.events_in_poll = 0;
         let slot = &mut w.tasks[id];
         slot.polls += 1;
         let fut = slot.fut.take();
